@@ -78,6 +78,14 @@ def one_tree(args):
     else:
         res['problems'].append(f"variant created-reversed: generator did not succeed: {st}")
     res['runs'] += 1
+    # an output directory none of whose parents exists yet
+    o = os.path.join(base, 'fresh', 'nested', 'deeper', '_generated')
+    st = gen(root, xml, o, '2', 'normal')
+    if st == 'GENERATED':
+        outs['fresh-nested-output-directory'] = read_tree(o)
+    else:
+        res['problems'].append(f"variant fresh-nested-output-directory (parents of the output directory do not exist): generator did not succeed: {st}")
+    res['runs'] += 1
     # second run into the same output directory; run into a directory pre-populated by a different tree
     o = os.path.join(base, 'out-hashseed-0')
     st = gen(root, xml, o, '9', 'shuffle:5')
